@@ -1386,6 +1386,12 @@ def instances(tier: str) -> List[Tuple[str, tuple, dict, Callable[..., Callable[
           ("fillomino", (2, 2, [[0, 0], [0, 3]]), {"checkered": True}, rule_fillomino),
           ("fillomino", (1, 3, [[1, 0, 0]]), {}, rule_fillomino),
           ("fillomino", (2, 2, [[1, 0], [0, 0]]), {"checkered": True}, rule_fillomino)]
+    # checkered, with enough clues to stay cheap: three mutually adjacent blocks, the odd cycle running through a domino that is
+    # vertical (only the horizontal-border colour rule can see that its two cells need one colour) resp. horizontal (the transpose);
+    # round 13: `==` weakened to an implication in one of the two colour rules
+    I += [("fillomino", (2, 3, [[2, 1, 3], [2, 0, 3]]), {"checkered": True}, rule_fillomino),
+          ("fillomino", (3, 2, [[2, 2], [1, 0], [3, 3]]), {"checkered": True}, rule_fillomino),
+          ("fillomino", (2, 3, [[2, 1, 3], [2, 0, 0]]), {}, rule_fillomino)]
     if deep:
         # 2x3 is the smallest board with three mutually adjacent blocks (3 / 2 / 1): valid, but not two-colourable
         I += [("fillomino", (2, 3, [[0, 0, 0], [0, 0, 0]]), {}, rule_fillomino), ("fillomino", (1, 4, [[0, 0, 0, 0]]), {"checkered": True}, rule_fillomino),
